@@ -1,1 +1,2 @@
+import Dawgs.Props.C09
 import Dawgs.Props.C16
